@@ -39,6 +39,16 @@ for d in sorted(glob.glob(V + '/seeded/C*-*/meta.json'), key=lambda p: (p.split(
     else:
         caught = '; '.join('%s: %s' % (p, ('exit 1, ' + ('no-failing-input-found' if any('no-failing-input' in x for x in r['lines']) else 'VIOLATION with input')) if r['exit'] == 1 else 'exit %d (not caught)' % r['exit'])
                            for p, r in c.get('checks', {}).items())
+    fs = m.get('final_sweep')
+    if fs:
+        rs = fs.get('results', {})
+        vals = set(rs.values())
+        own = ('V on every seed' if vals == {'V'} else ', '.join('%s=%s' % kv for kv in sorted(rs.items())))
+        caught = '%s: %s (VERIF_SEED %s; at %s)' % (fs['check'], own, ','.join(k[4:] for k in sorted(rs)), fs.get('commit', '?'))
+        if isinstance(c, dict):
+            others = ['%s exit %d' % (p, r['exit']) for p, r in c.get('checks', {}).items() if p != fs['check']]
+            if others:
+                caught += '; at archive time also: ' + ', '.join(others)
     summ = (m.get('summary', '') + ' — needs: ' + str(m.get('needs_to_manifest', '')))[:420].replace('|', '\\|').replace('\n', ' ')
     srows.append('| %s | %s | %s | %s |' % (i, summ, caught, hist.get(i, 'caught on first run')))
 seed_tab = '\n'.join(srows)
